@@ -156,15 +156,43 @@ def run_hist(histories, tag, go_bin, want_model=True):
     if want_model:
         # histories marked nomodel=1 (operations outside the model, judged by the oracle alone) are not given to the model
         mp = hp + ".m"
+        texts = []
+        for h in histories:
+            t = h.text() if hasattr(h, "text") else h
+            if "nomodel=1" not in t.split("\n", 1)[0]:
+                texts.append(t)
         with open(mp, "w") as f:
-            for h in histories:
-                t = h.text() if hasattr(h, "text") else h
-                if "nomodel=1" not in t.split("\n", 1)[0]:
-                    f.write(t)
-        rc, out = sh("%s < %s > %s.ml" % (os.path.join(ROOT, "ocaml", "driver"), mp, hp), timeout=1800)
-        if rc:
-            raise RuntimeError("model driver failed: " + out[-2000:])
-        ml = lib.read_obs(hp + ".ml")
+            f.write("".join(texts))
+        # the extracted model is single-threaded: large batches are split into shards run side by side
+        # (every history starts from the empty world, so shards are independent)
+        nsh = 1 if len(texts) < 64 else min(12, (len(texts) + 31) // 32)
+        size = sum(len(t) for t in texts)
+        shards = [[] for _ in range(nsh)]; load = [0] * nsh
+        for t in texts:
+            i = load.index(min(load)); shards[i].append(t); load[i] += len(t)
+        procs = []
+        drv = os.path.join(ROOT, "ocaml", "driver")
+        for i, sh_texts in enumerate(shards):
+            with open("%s.%d" % (mp, i), "w") as f:
+                f.write("".join(sh_texts))
+            procs.append(subprocess.Popen("%s < %s.%d > %s.ml.%d" % (drv, mp, i, hp, i), shell=True, stdout=subprocess.PIPE, stderr=subprocess.STDOUT))
+        ml = {}
+        for i, pr in enumerate(procs):
+            try:
+                out, _ = pr.communicate(timeout=7200)
+            except subprocess.TimeoutExpired:
+                for q in procs:
+                    q.kill()
+                raise RuntimeError("model driver timed out on shard %d of %d (%d bytes of histories)" % (i, nsh, size))
+            if pr.returncode:
+                raise RuntimeError("model driver failed: " + out.decode("latin-1")[-2000:])
+            ml.update(lib.read_obs("%s.ml.%d" % (hp, i)))
+        for i in range(nsh):
+            for q in ("%s.%d" % (mp, i), "%s.ml.%d" % (hp, i)):
+                try:
+                    os.remove(q)
+                except OSError:
+                    pass
     return go, ml
 
 def split_hist(text):
